@@ -37,7 +37,7 @@ Qed.
 
 Theorem label_lines_partition bal s ll :
   label_lines bal s = Ok ll ->
-  length ll = length (splitlines s) /\ Forall2 SameLineUpToHack ll (splitlines s).
+  length ll = length (srclines s) /\ Forall2 SameLineUpToHack ll (srclines s).
 Proof. apply label_go_partition. Qed.
 
 (* ---------- grouping ---------- *)
